@@ -31,7 +31,7 @@ ANCHORS = ['lp:DecVar.evtadapt', 'lp:DecVarSub.affadapt', 'lp:DecRule.adapt',
            'lp:DecRule.to_affine', 'dro:Model.ro_to_roc']
 FLOORS = {'judged': {'quick': 600, 'thorough': 6000}, 'nontrivial': 150,
           'counters': {'contract:comb_set': 200, 'contract:event_dict': 500,
-                       'struct_entries_checked': 500, 'ident_solved': 150}}
+                       'struct_entries_checked': 350, 'ident_solved': 150}}
 RULE = ('ident: every partition of 2-4 scenarios (5 in thorough) with random declaration order and '
         'label kind, random values and probabilities; struct: random dro and ro models from the '
         'C03/C01 generators; refine: all ordered pairs of partitions of <= 4 scenarios x operator; '
